@@ -929,7 +929,15 @@ func canary() string {
 	if canaryPath != "" {
 		return canaryPath
 	}
-	dir, err := os.MkdirTemp("", "c07-canary")
+	// inside the driver's scratch directory when there is one (it is wiped after the run)
+	var dir string
+	var err error
+	if out := os.Getenv("VERIF_OUT"); out != "" {
+		dir = filepath.Join(out, "c07-canary")
+		err = os.MkdirAll(dir, 0o755)
+	} else {
+		dir, err = os.MkdirTemp("", "c07-canary")
+	}
 	if err != nil {
 		panic(err)
 	}
